@@ -112,37 +112,52 @@ inductive ReportErr where
   | unsupportedObjectType
   deriving DecidableEq, Repr
 
-/-- the HLSL name map applied to the name of a global or cbuffer, for modules in which `<name>_0` is not itself
+/-- the HLSL name map applied to the name of a global or function, for modules in which `<name>_0` is not itself
     a declared name (the collision counter of `NameMap::build` belongs to C15's model) -/
 def hlslRename (n : String) : String := if hlslReservedNames.contains n then n ++ "_0" else n
 
-/-- the name a back end reports for a global's binding: HLSL asks its name map (`context.get_global_name`),
-    Metal reports the source name (`module.get_global_name`); a cbuffer is reported under its source name by
-    both (`get_constant_buffer_name` reads the registry, not the name map) -/
-def nameFor (rn : String → String) : Backend → String → String
-  | .hlsl, n => rn n
-  | .msl, n => n
+/-- the Metal name map applied to the name of a global (same proviso) -/
+def mslRename (n : String) : String := if mslReservedNames.contains n then n ++ "_0" else n
+
+/-- the two exporters' name maps on global names -/
+structure NameMaps where
+  hlsl : String → String
+  msl : String → String
+
+def codeNameMaps : NameMaps := ⟨hlslRename, mslRename⟩
+
+/-- the name a back end reports for a global's binding: each asks its own name map
+    (`context.get_global_name` in both `analyse_bindings` since 9dda9a6) -/
+def nameFor (rn : NameMaps) : Backend → String → String
+  | .hlsl, n => rn.hlsl n
+  | .msl, n => rn.msl n
+
+/-- the name reported for a declaration: a cbuffer block keeps its source name on HLSL
+    (`get_constant_buffer_name` reads the registry) and is a renamable global on Metal (`simplify_cbuffers`) -/
+def reportedName (rn : NameMaps) (b : Backend) (d : Decl) : String :=
+  match d.shape, b with
+  | .cbuffer, .hlsl => d.name
+  | _, _ => nameFor rn b d.name
 
 /-- `analyse_bindings` for one root definition: the descriptor kind is looked up first (an unsupported object
     kind fails the export), then the binding is registered if the declaration has a slot.  On Metal a cbuffer
-    has been rewritten into a `ConstantBuffer<struct>` global of the same name by `simplify_cbuffers`.
-    `rn` is the HLSL name map on global names. -/
-def report (rn : String → String) (b : Backend) (p : Params) (d : Decl) : Except ReportErr (Option Binding) :=
+    has been rewritten into a `ConstantBuffer<struct>` global of the same name by `simplify_cbuffers`. -/
+def report (rn : NameMaps) (b : Backend) (p : Params) (d : Decl) : Except ReportErr (Option Binding) :=
   match d.shape with
   | .cbuffer =>
     match b with
-    | .hlsl => .ok (some ⟨d.name, .ConstantBuffer, some 1, false⟩)
+    | .hlsl => .ok (some ⟨reportedName rn .hlsl d, .ConstantBuffer, some 1, false⟩)
     | .msl =>
       match kindTable .msl .ConstantBuffer with
       | none => .error .unsupportedObjectType
-      | some k => .ok (some ⟨d.name, k, some 1, false⟩)
+      | some k => .ok (some ⟨reportedName rn .msl d, k, some 1, false⟩)
   | .object k arr ss =>
     match kindTable b k with
     | none => .error .unsupportedObjectType
-    | some dk => .ok (if hasSlot p d.shape then some ⟨nameFor rn b d.name, dk, countOf arr, ss⟩ else none)
+    | some dk => .ok (if hasSlot p d.shape then some ⟨reportedName rn b d, dk, countOf arr, ss⟩ else none)
   | .plain _ => .ok none
 
-def reports (rn : String → String) (b : Backend) (p : Params) : List Decl → Except ReportErr (List Binding)
+def reports (rn : NameMaps) (b : Backend) (p : Params) : List Decl → Except ReportErr (List Binding)
   | [] => .ok []
   | d :: ds =>
     match report rn b p d with
@@ -153,9 +168,16 @@ def reports (rn : String → String) (b : Backend) (p : Params) : List Decl → 
       | .ok rs => .ok (r.toList ++ rs)
 
 /-- the reflected bindings of a module for a target (`sba` = support_buffer_address) -/
-def bindingsFor (rn : String → String) (t : Target) (sba : Bool) (ds : List Decl) :
+def bindingsFor (rn : NameMaps) (t : Target) (sba : Bool) (ds : List Decl) :
     Except ReportErr (List Binding) :=
   reports rn (backendOf t) (paramsFor t sba) ds
+
+/-- the declared name is treated alike by both target languages: reserved in neither or in both (a cbuffer block
+    is never renamed by HLSL, so for it: not reserved in Metal) -/
+def reservedAlike (d : Decl) : Bool :=
+  match d.shape with
+  | .cbuffer => !mslReservedNames.contains d.name
+  | _ => hlslReservedNames.contains d.name == mslReservedNames.contains d.name
 
 def isAddressKind (k : DescKind) : Bool := k == .BufferAddress || k == .RwBufferAddress
 
@@ -222,11 +244,13 @@ structure StageDef where
   threads : Option (Nat × Nat × Nat)
   deriving DecidableEq, Repr
 
-/-- `CompiledPipelineStage` list of `build_pipeline`: HLSL reports the function's name, Metal a fixed name -/
-def stageReports (t : Target) (stages : List StageDef) : List StageDef :=
+/-- `CompiledPipelineStage` list of `build_pipeline`: HLSL reports the name its exporter generated for the entry
+    function (`rnFn`, the HLSL name map on function names — the same map for DirectX and Vulkan, built from the
+    module alone), Metal a fixed name per stage -/
+def stageReports (rnFn : String → String) (t : Target) (stages : List StageDef) : List StageDef :=
   stages.map fun s =>
     match backendOf t with
-    | .hlsl => s
+    | .hlsl => { s with entry := rnFn s.entry }
     | .msl => { s with entry := mslEntryName s.stage }
 
 end RsslVerif.Model.Targets
